@@ -15,6 +15,18 @@ def digest(b):
     return hashlib.sha256(b).hexdigest()[:24]
 
 
+_FOLD_PASSES = {}
+
+
+def _shared_fold_pass(si):
+    from onnxscript.optimizer import _constant_folding as cf
+
+    if si not in _FOLD_PASSES:
+        _FOLD_PASSES[si] = cf.FoldConstantsPass(shape_inference=si, input_size_limit=cf.DEFAULT_CONSTANT_FOLD_INPUT_SIZE_LIMIT,
+                                                output_size_limit=cf.DEFAULT_CONSTANT_FOLD_OUTPUT_SIZE_LIMIT)
+    return _FOLD_PASSES[si]
+
+
 def do(op):
     import onnx
 
@@ -101,6 +113,26 @@ def do(op):
             g = helper.make_graph([helper.make_node("F", ["x"], ["y"], domain="local")], "g", [fx], [fy])
         m = helper.make_model(g, opset_imports=[helper.make_opsetid("", 18)] + ([helper.make_opsetid("local", 1)] if functions else []), functions=functions, ir_version=8)
         return {"d": digest(rw(m, [rule]).SerializeToString())}
+    if kind == "bad_fold":
+        # history only: the shared FoldConstantsPass object raises on this model after it has already folded Add(c1, c2)
+        # (Gather of index 5 from the shape of a rank-2 tensor): whatever the pass keeps must not reach the next model
+        from onnx import TensorProto as TP
+        from onnx import helper as oh
+
+        from onnxscript import ir
+
+        nodes = [oh.make_node("Constant", [], ["c1"], value=oh.make_tensor("c1", TP.FLOAT, [2], [1.0, 2.0])),
+                 oh.make_node("Constant", [], ["c2"], value=oh.make_tensor("c2", TP.FLOAT, [2], [3.0, 4.0])),
+                 oh.make_node("Add", ["c1", "c2"], ["s"]), oh.make_node("Mul", ["x", "s"], ["y"]), oh.make_node("Shape", ["x"], ["shp"]),
+                 oh.make_node("Constant", [], ["idx"], value=oh.make_tensor("idx", TP.INT64, [1], [5])), oh.make_node("Gather", ["shp", "idx"], ["g"], axis=0)]
+        g = oh.make_graph(nodes, "failing", [oh.make_tensor_value_info("x", TP.FLOAT, ["N", 2])],
+                          [oh.make_tensor_value_info("y", TP.FLOAT, ["N", 2]), oh.make_tensor_value_info("g", TP.INT64, [1])])
+        m = oh.make_model(g, opset_imports=[oh.make_opsetid("", 18)], ir_version=10)
+        try:
+            _shared_fold_pass(bool(op.get("si")))(ir.serde.deserialize_model(m))
+            return {"d": "bad_fold_did_not_raise"}
+        except Exception as e:  # noqa: BLE001
+            return {"d": "bad_fold_raised:" + type(e).__name__}
     if kind == "bad_pattern":
         # a pattern constructor that raises inside pattern_builder / a rule whose check stashes state then fails
         from onnxscript.rewriter import pattern
@@ -133,6 +165,13 @@ def do(op):
         import onnxscript.rewriter as rw
 
         return {"d": digest(rw.rewrite(model).SerializeToString())}
+    if kind == "fold_obj":
+        # ONE FoldConstantsPass object per process (per shape-inference flag), applied to every model that asks for it
+        from onnxscript import ir
+
+        mi = ir.serde.deserialize_model(model)
+        r = _shared_fold_pass(bool(op.get("si")))(mi)
+        return {"d": digest(ir.serde.serialize_model(r.model).SerializeToString() + (b"|modified" if r.modified else b"|unmodified"))}
     if kind == "fold":
         import onnxscript.optimizer as opt
 
